@@ -242,7 +242,8 @@ class Interp:
         return s
 
     def cmp(self, op, x, y):
-        if self._isnf(x, y):
+        if isinstance(x, NonFinite) or isinstance(y, NonFinite):
+            # a symbolic real is finite: comparing it with an infinite / NaN constant is decided (also without the ext_real option)
             return self._nf(op, x, y)
         if self.mode == "real" and z3.is_expr(x) and z3.is_expr(y) and x.eq(y):
             return z3.BoolVal(op in ("le", "ge", "eq"))
@@ -418,12 +419,17 @@ class Interp:
     def p_sqrt(self, e, a): return self.ew(self.sqrt, *a)
     def p_max(self, e, a): return self.ew(self.fmax, *a)
     def p_min(self, e, a): return self.ew(self.fmin, *a)
-    def p_lt(self, e, a): return self.ew(lambda x, y: self.cmp("lt", x, y), *a)
-    def p_le(self, e, a): return self.ew(lambda x, y: self.cmp("le", x, y), *a)
-    def p_gt(self, e, a): return self.ew(lambda x, y: self.cmp("gt", x, y), *a)
-    def p_ge(self, e, a): return self.ew(lambda x, y: self.cmp("ge", x, y), *a)
-    def p_eq(self, e, a): return self.ew(lambda x, y: self.cmp("eq", x, y), *a)
-    def p_ne(self, e, a): return self.ew(lambda x, y: self.cmp("ne", x, y), *a)
+    def p_lt(self, e, a): return self.ew(self._cmpf("lt"), *a)
+    def p_le(self, e, a): return self.ew(self._cmpf("le"), *a)
+    def p_gt(self, e, a): return self.ew(self._cmpf("gt"), *a)
+    def p_ge(self, e, a): return self.ew(self._cmpf("ge"), *a)
+    def p_eq(self, e, a): return self.ew(self._cmpf("eq"), *a)
+    def p_ne(self, e, a): return self.ew(self._cmpf("ne"), *a)
+    def _cmpf(self, op):
+        def sel(x, y):            # named `sel`: ew lets non-finite constants through to cmp, which decides them
+            return self.cmp(op, x, y)
+        return sel
+
     def p_and(self, e, a): return self.ew(lambda x, y: z3.And(x, y) if z3.is_bool(x) else x & y, *a)
     def p_or(self, e, a): return self.ew(lambda x, y: z3.Or(x, y) if z3.is_bool(x) else x | y, *a)
     def p_not(self, e, a): return self.ew(lambda x: z3.Not(x), *a)
